@@ -808,6 +808,9 @@ func (p *path) arrange(n int, less func(i, j int) bool, swap func(i, j int), sta
 				if len(cands) > 1 {
 					c = cands[p.choose(len(cands))]
 					p.envChoices++
+					if c != 0 {
+						p.envDeviations++ // an arrangement other than the one insertion sort produces
+					}
 				}
 				if c != 0 {
 					// move element start+k+c to position start+k by adjacent swaps (keeps others' order)
